@@ -299,6 +299,7 @@ type entry struct {
 	Marker   bool // content carries a marker unique in the tree
 	Nested   bool // lives below a sub-directory (or behind a directory link)
 	Lock     bool // editor lock link  .#name -> user@host.pid:boot
+	Odd      bool // dangling link whose resolution fails with ENOTDIR / ENAMETOOLONG / ELOOP
 }
 
 func (e *entry) dot() bool     { return strings.HasPrefix(e.Name, ".") }
@@ -613,7 +614,17 @@ func (g *gen) tree() *view {
 					name = "." + name
 				}
 			}
-			add(&entry{Name: name, Kind: kDangling, Target: pick(rng, []string{"nowhere", "/nonexistent/c17/target", "../ext/missing", "a.sh/not-a-dir", "loop-" + name})})
+			odd := false
+			tgt := pick(rng, []string{"nowhere", "/nonexistent/c17/target", "../ext/missing", "a.sh/not-a-dir", "loop-" + name})
+			if rng.IntN(3) == 0 {
+				// links whose resolution fails in another way than "no such file": through
+				// a regular file (ENOTDIR), an over-long component (ENAMETOOLONG), itself (ELOOP)
+				os.MkdirAll(filepath.Join(g.base, "ext"), 0o755)
+				os.WriteFile(filepath.Join(g.base, "ext", "plain-file"), []byte("x\n"), 0o644)
+				tgt = pick(rng, []string{"../ext/plain-file/lock", filepath.Join(g.base, "ext", "plain-file", "x", "y"), strings.Repeat("n", 300), "sub/" + strings.Repeat("L", 256) + ".sh", name, "./" + name})
+				odd = true
+			}
+			add(&entry{Name: name, Kind: kDangling, Target: tgt, Odd: odd})
 		case x < 85: // editor lock link next to a file being edited
 			of := v.top[rng.IntN(len(v.top))].Name
 			add(&entry{Name: ".#" + strings.TrimPrefix(of, "."), Kind: kDangling, Lock: true, Target: fmt.Sprintf("user@host.%d:%d", 1000+rng.IntN(9000), 1700000000+rng.IntN(1000))})
@@ -1628,6 +1639,12 @@ func (tc *treeCheck) census() {
 				tc.count("files_generated:symlinks_valid", 1)
 			case kDangling:
 				tc.count("files_generated:symlinks_dangling", 1)
+				if e.Odd {
+					tc.count("files_generated:dangling_links_failing_otherwise_than_enoent", 1)
+					if e.dot() && tc.tb.first(strings.TrimLeft(e.Name, ".#")) != nil || e.dot() && tc.tb.first(e.Name) != nil {
+						tc.count("files_generated:dot_links_with_eligible_looking_name_failing_otherwise_than_enoent", 1)
+					}
+				}
 				if e.Lock {
 					tc.count("files_generated:lock_links", 1)
 				} else if !e.dot() {
@@ -1698,7 +1715,7 @@ func (tc *treeCheck) census() {
 
 // Run is the check.
 func Run(r *mon.Run) {
-	r.Rule = "one case = one generated directory tree (2-14 top-level entries: regular files, valid links to files and directories, dangling links among dot-files and non-matching names, editor lock links, sub-directories with matching names inside; names with spaces, glob characters, leading dots, several extensions; empty / newline-only / unterminated / CRLF / non-UTF-8 contents) together with one filter table (the defaults, defaults with patterns removed, or user-modified tables of overlapping patterns whose tagging filters print <pattern|name|content>). Per tree: Converter.From(dir) against the reference model, 3 sequential and 4 concurrent calls (plus concurrent SetFilter of an unrelated pattern), explicitly named single files, several sources; a sample of default-table trees through the real curlrevshell -print-ctrl-i and the shellfuncsfile tool. distinct_nontrivial = distinct (filter table, entry names, kinds, content classes) signatures"
+	r.Rule = "one case = one generated directory tree (2-14 top-level entries: regular files, valid links to files and directories, dangling links among dot-files and non-matching names (targets that do not exist, and targets whose resolution fails otherwise: through a regular file, an over-long component, the link itself), editor lock links, sub-directories with matching names inside; names with spaces, glob characters, leading dots, several extensions; empty / newline-only / unterminated / CRLF / non-UTF-8 contents) together with one filter table (the defaults, defaults with patterns removed, or user-modified tables of overlapping patterns whose tagging filters print <pattern|name|content>). Per tree: Converter.From(dir) against the reference model, 3 sequential and 4 concurrent calls (plus concurrent SetFilter of an unrelated pattern), explicitly named single files, several sources; a sample of default-table trees through the real curlrevshell -print-ctrl-i and the shellfuncsfile tool. distinct_nontrivial = distinct (filter table, entry names, kinds, content classes) signatures"
 	r.Assumptions = []string{
 		"per-file conversion by FromPerl is taken from the library (judged by C16); the appended list function is taken from GenFuncList (judged by C18)",
 		"filter patterns are well-formed; filters never fail",
@@ -1742,6 +1759,8 @@ func Run(r *mon.Run) {
 	r.Floor("files_generated:dotfiles_matching_a_pattern", fl(n/10))
 	r.Floor("files_generated:lock_links", fl(n/8))
 	r.Floor("files_generated:dangling_nonmatching_names", fl(n/20))
+	r.Floor("files_generated:dangling_links_failing_otherwise_than_enoent", fl(n/40))
+	r.Floor("files_generated:dot_links_with_eligible_looking_name_failing_otherwise_than_enoent", fl(n/100))
 	r.Floor("files_generated:symlinks_valid", fl(n/4))
 	r.Floor("files_generated:subdirs", fl(n/4))
 	r.Floor("files_generated:nested_files", fl(n/4))
